@@ -36,27 +36,6 @@ Notation PR := (printable c dd).
 Notation W := (walk c dd).
 
 (* ---- a chain  acc op1 b1 op2 b2 ...  over operator tokens of level 3, 8 or 9 *)
-Lemma step_shape L op a b e : is_binop_at L op = true -> In L [3; 8; 9] ->
-  call_method c (remap op_remap op) a [b] = Ok e -> exists op' i m, e = EOp op' i m None [a; b].
-Proof. intros Hb HL Hc. pose proof (binop_levels L op Hb HL) as Hin. pose proof steps_ok as S. rewrite forallb_forall in S.
-  specialize (S op Hin). unfold step_ok in S.
-  destruct (find_method (remap op_remap op) method_table) as [[| op' i m chk | | | | | | | | | | |]|] eqn:F; try discriminate S.
-  destruct (call_bin_inv c _ _ _ _ _ _ _ _ F Hc) as [-> _]. eauto. Qed.
-
-Lemma chain_kf L : In L [3; 8; 9] -> forall (rest : list (string * ltree)) acc e,
-  (forall p, In p rest -> is_binop_at L (fst p) = true) ->
-  chain_fold c (Ok acc) (map (fun p => Some (fst p)) rest) (map (fun p => W (snd p)) rest) = Ok e ->
-  expr_kf_ok e = true ->
-  expr_kf_ok acc = true /\ forall p x, In p rest -> W (snd p) = Ok x -> expr_kf_ok x = true.
-Proof. intros HL. induction rest as [|[o t] rest IH]; intros acc e Hops Hc Hkf.
-  - simpl in Hc. inversion Hc; subst. split; [exact Hkf|intros p x []].
-  - cbn [map chain_fold fst snd] in Hc. destruct (W t) as [b|] eqn:Wt; [|discriminate Hc].
-    destruct (call_method c (remap op_remap o) acc [b]) as [e1|] eqn:Cm; [|exfalso; eapply chain_fold_Err; exact Hc].
-    destruct (IH e1 e (fun p Hp => Hops p (or_intror Hp)) Hc Hkf) as [K1 Kr].
-    destruct (step_shape L o acc b e1 (Hops (o, t) (or_introl eq_refl)) HL Cm) as [op' [i [m ->]]].
-    cbn [expr_kf_ok forallb] in K1. apply andb_prop in K1 as [K1 _]. apply andb_prop in K1 as [Ka Kb]. apply andb_prop in Kb as [Kb _].
-    split; [exact Ka|]. intros p x [<-|Hp] Hx; [cbn [snd] in Hx; rewrite Wt in Hx; inversion Hx; subst; exact Kb|exact (Kr p x Hp Hx)]. Qed.
-
 Lemma chain_pr L : In L [3; 8; 9] -> forall (rest : list (string * ltree)) acc e,
   (forall p, In p rest -> is_binop_at L (fst p) = true) ->
   chain_fold c (Ok acc) (map (fun p => Some (fst p)) rest) (map (fun p => W (snd p)) rest) = Ok e ->
@@ -69,47 +48,34 @@ Proof. intros HL. induction rest as [|[o t] rest IH]; intros acc e Hops Hc Pa Pr
     + apply (step_printable c dd L o acc b e1 (Hops (o, t) (or_introl eq_refl)) HL Cm Pa). apply (Pr (o, t) b (or_introl eq_refl) Wt).
     + intros p x Hp Hx. exact (Pr p x (or_intror Hp) Hx). Qed.
 
-(* ---- what a method call builds, for a non-dunder name *)
-Lemma call_method_shape n self al e : is_dunder n = false -> call_method c n self al = Ok e ->
-  exists op i m extra, e = EOp op i m None (self :: al ++ extra).
-Proof. intros Hd Hc. unfold call_method in Hc. destruct (is_term self); [|discriminate Hc]. cbn [negb] in Hc.
-  destruct (find_method n method_table) as [sp|] eqn:F; [|discriminate Hc].
-  pose proof (entry_ok_of n sp F) as Ok0. unfold entry_ok in Ok0. rewrite Hd in Ok0.
-  destruct sp as [op|op i m chk|op|op i m| | | | | | | | |op dflt must]; try discriminate Ok0.
-  - destruct al as [|? ?]; [|discriminate Hc]. apply uop_expr_Ok in Hc. subst. exists op, false, true, []. reflexivity.
-  - destruct al as [|o [|? ?]]; try discriminate Hc. apply op_expr_Ok in Hc. subst. exists op, i, m, []. reflexivity.
-  - destruct al as [|x [|y [|? ?]]]; try discriminate Hc. apply triop_expr_Ok in Hc. subst. exists op, i, m, []. reflexivity.
-  - destruct al as [|[| v | | |] [|? ?]]; try discriminate Hc.
-    + apply op_expr_Ok in Hc. subst. exists "shift", false, true, [EVal (PInt 1)]. reflexivity.
-    + destruct v as [|b|z| | |]; try discriminate Hc.
-      * destruct b; [|discriminate Hc]. apply op_expr_Ok in Hc. subst. exists "shift", false, true, []. reflexivity.
-      * destruct (Z.eqb z 0); [discriminate Hc|]. apply op_expr_Ok in Hc. subst. exists "shift", false, true, []. reflexivity.
-    + destruct v as [|b|z| | |]; discriminate Hc.
-  - destruct al as [|[| v | | |] [|? ?]]; try discriminate Hc. apply op_expr_Ok in Hc. subst. exists "around", false, false, []. reflexivity.
-  - destruct al as [|[| | | d |] [|[| v | | |] [|? ?]]]; try discriminate Hc.
-    + apply triop_expr_Ok in Hc. subst. exists "mapv", false, true, [EVal PNone]. reflexivity.
-    + apply triop_expr_Ok in Hc. subst. exists "mapv", false, true, []. reflexivity.
-  - destruct al as [|[| x | | |] [|[| y | | |] [|? ?]]]; try discriminate Hc. apply triop_expr_Ok in Hc. subst.
-    exists "trimstr", false, true, []. reflexivity.
-  - destruct al as [|? ?]; [|discriminate Hc]. apply op_expr_Ok in Hc. subst. exists "coalesce", false, true, [EVal (PInt 0)]. reflexivity.
-  - destruct al as [|o [|? ?]]; try discriminate Hc.
-    + apply op_expr_Ok in Hc. subst. exists op, false, true, [EVal (PStr dflt)]. reflexivity.
-    + destruct (must && negb match o with EVal _ => true | _ => false end); [discriminate Hc|].
-      apply op_expr_Ok in Hc. subst. exists op, false, true, []. reflexivity. Qed.
-
-Lemma kf_args op i m p args : expr_kf_ok (EOp op i m p args) = true -> forallb expr_kf_ok args = true.
-Proof. cbn [expr_kf_ok]. intros H. apply andb_prop in H as [H _]. exact H. Qed.
-
 (* ---- displays *)
-Lemma coll_printable d cs rs g a e : In d ["list"; "tuple"; "set"] ->
-  walk_node c d cs rs g a = Ok e -> expr_kf_ok e = true -> PR e = true.
-Proof. intros Hd. rewrite (wn_coll c d _ _ _ _ Hd), wn_list.
-  destruct cs as [|x [|y cs]]; try discriminate. destruct g as [l|]; [|discriminate].
-  destruct (all_ok l) as [vs|]; [|discriminate].
-  destruct (all_some (map (fun e0 => match e0 with EVal v => Some v | _ => None end) vs)) as [vals|]; [|discriminate].
+Lemma unwrap_vals vs vals : all_some (map (fun e0 => match e0 with EVal v => Some v | _ => None end) vs) = Some vals ->
+  vs = map EVal vals.
+Proof. revert vals. induction vs as [|x vs IH]; intros vals H.
+  - simpl in H. inversion H. reflexivity.
+  - cbn [map all_some] in H. destruct x as [|v| | |]; try discriminate H.
+    destruct (all_some (map (fun e0 => match e0 with EVal v => Some v | _ => None end) vs)) as [r|] eqn:E; [|discriminate H].
+    inversion H; subst. cbn [map]. rewrite (IH r eq_refl). reflexivity. Qed.
+
+Lemma all_ok_In {A} (l : list (res A)) r x : all_ok l = Ok r -> In x r -> In (Ok x) l.
+Proof. revert r. induction l as [|[y|] l IH]; intros r H Hx; simpl in H; try discriminate H.
+  - inversion H; subst. destruct Hx.
+  - destruct (all_ok l) as [r'|] eqn:E; [|discriminate H]. inversion H; subst. destruct Hx as [->|Hx]; [left; reflexivity|right; exact (IH r' eq_refl Hx)]. Qed.
+
+(* a list / tuple / set node whose walked items are printable builds a printable ListTerm *)
+Lemma coll_printable d cs rs g a e l : In d ["list"; "tuple"; "set"] ->
+  coll_items cs rs g = Some l -> (forall x, In (Ok x) l -> PR x = true) ->
+  walk_node c d cs rs g a = Ok e -> PR e = true.
+Proof. intros Hd Hl Hp. rewrite (wn_coll c d _ _ _ _ Hd), wn_list, Hl.
+  destruct (all_ok l) as [vs|] eqn:A; [|discriminate].
+  destruct (all_some (map (fun e0 => match e0 with EVal v => Some v | _ => None end) vs)) as [vals|] eqn:U; [|discriminate].
   destruct (existsb (fun v => pval_eqb v PNone) vals) eqn:En; [discriminate|].
   destruct (negb (compatible_types (map type_of vals))) eqn:Ec; [discriminate|]. apply negb_false_iff in Ec.
-  intros H Hkf. inversion H; subst. cbn [expr_kf_ok] in Hkf. cbn [printable]. rewrite Hkf, En, Ec. reflexivity. Qed.
+  intros H. inversion H; subst. cbn [printable]. rewrite En, Ec. cbn [negb]. rewrite !andb_true_r.
+  apply negb_true_iff. destruct (existsb is_inf vals) eqn:Ei; [|reflexivity]. exfalso.
+  apply existsb_exists in Ei as [v [Hv Hi]]. apply unwrap_vals in U. subst vs.
+  assert (Hin : In (Ok (EVal v)) l) by (apply (all_ok_In l (map EVal vals)); [exact A|apply in_map; exact Hv]).
+  specialize (Hp _ Hin). cbn [printable] in Hp. rewrite Hi in Hp. discriminate Hp. Qed.
 
 (* dict_combine keeps the keys distinct and never stores None *)
 Lemma pdict_set_keys d k v :
@@ -156,31 +122,59 @@ Proof. induction ds as [|d ds IH]; intros acc comb H Hi.
       lia. }
     destruct (Hf kvs acc En Hi) as [A B]. destruct (IH _ _ H A) as [C D]. split; [exact C|lia]. Qed.
 
+Definition noinf (d : list (pval * pval)) : bool := negb (existsb (fun kv => is_inf (fst kv) || is_inf (snd kv)) d).
+
+Lemma noinf_cons kv d : noinf (kv :: d) = negb (is_inf (fst kv) || is_inf (snd kv)) && noinf d.
+Proof. unfold noinf. cbn [existsb]. rewrite negb_orb. reflexivity. Qed.
+
+Lemma pdict_set_noinf d k v : is_inf k = false -> is_inf v = false -> noinf d = true -> noinf (pdict_set d k v) = true.
+Proof. intros Hk Hv. induction d as [|[k' v'] d IH]; intros H.
+  - cbn [pdict_set]. rewrite noinf_cons. cbn [fst snd]. rewrite Hk, Hv. reflexivity.
+  - rewrite noinf_cons in H. apply andb_prop in H as [H1 H2]. cbn [fst snd] in H1. cbn [pdict_set]. destruct (py_eq k k').
+    + rewrite noinf_cons. cbn [fst snd]. apply negb_true_iff in H1. apply orb_false_elim in H1 as [H1 _]. rewrite H1, Hv, H2. reflexivity.
+    + rewrite noinf_cons. cbn [fst snd]. rewrite H1, (IH H2). reflexivity. Qed.
+
+Lemma dict_combine_noinf : forall ds acc comb, dict_combine acc ds = Some comb -> noinf acc = true ->
+  (forall kvs, In (EDict kvs) ds -> noinf kvs = true) -> noinf comb = true.
+Proof. induction ds as [|d ds IH]; intros acc comb H Ha Hd.
+  - simpl in H. inversion H; subst. exact Ha.
+  - destruct d as [| | |kvs|]; try discriminate H. cbn [dict_combine] in H.
+    destruct (existsb (fun kv => pval_eqb (fst kv) PNone) kvs); [discriminate H|].
+    apply (IH _ _ H); [|intros k Hk; apply Hd; right; exact Hk].
+    pose proof (Hd kvs (or_introl eq_refl)) as Hk. clear H Hd IH. revert acc Ha.
+    induction kvs as [|[k v] kvs IHk]; intros acc Ha; [exact Ha|]. rewrite noinf_cons in Hk. apply andb_prop in Hk as [H1 H2].
+    cbn [fst snd] in H1. apply negb_true_iff in H1. apply orb_false_elim in H1 as [Hik Hiv].
+    cbn [fold_left fst snd]. apply (IHk H2). apply pdict_set_noinf; assumption. Qed.
+
 Lemma dict_printable cs rs g a e : walk_node c "dict" cs rs g a = Ok e ->
-  (forall l, g = Some l -> forall r x, In r l -> r = Ok x -> exists k v, x = EDict [(k, v)]) ->
+  (forall l, g = Some l -> forall x, In (Ok x) l -> exists k v, x = EDict [(k, v)] /\ is_inf k = false /\ is_inf v = false) ->
   (forall l, g = Some l -> l <> []) ->
-  expr_kf_ok e = true -> PR e = true.
+  PR e = true.
 Proof. rewrite wn_dict. destruct cs as [|x [|y cs]]; try discriminate. destruct g as [l|]; [|discriminate].
   destruct (all_ok l) as [ds|] eqn:A; [|discriminate].
   destruct (dict_combine [] ds) as [comb|] eqn:D; [|discriminate].
   destruct (negb (compatible_types (map (fun kv => type_of (fst kv)) comb))) eqn:Ek; [discriminate|].
   destruct (negb (compatible_types (map (fun kv => type_of (snd kv)) comb))) eqn:Ev; [discriminate|].
   apply negb_false_iff in Ek. apply negb_false_iff in Ev.
-  intros H Hsingle Hne Hkf. inversion H; subst. cbn [expr_kf_ok] in Hkf. apply negb_true_iff in Hkf.
+  intros H Hsingle Hne. inversion H; subst.
   assert (K0 : keys_ok (map fst ([] : list (pval * pval)))) by (split; [intros k []|reflexivity]).
   destruct (dict_combine_inv ds [] comb D K0) as [[Hn Hd] Hlen].
+  assert (Hinf : noinf comb = true).
+  { apply (dict_combine_noinf ds [] comb D eq_refl). intros kvs Hk.
+    destruct (Hsingle l eq_refl (EDict kvs) (all_ok_In l ds _ A Hk)) as [k [v [E [Hik Hiv]]]]. inversion E; subst.
+    rewrite noinf_cons. cbn [fst snd]. rewrite Hik, Hiv. reflexivity. }
   (* comb is not empty: the first walked child is a one-entry dict *)
   assert (Hc : comb <> []).
   { destruct l as [|r l]; [exfalso; apply (Hne _ eq_refl); reflexivity|]. cbn [all_ok] in A.
     destruct r as [x0|]; [|discriminate A]. destruct (all_ok l) as [ds'|]; [|discriminate A]. inversion A; subst.
-    destruct (Hsingle _ eq_refl (Ok x0) x0 (or_introl eq_refl) eq_refl) as [k [v ->]].
+    destruct (Hsingle _ eq_refl x0 (or_introl eq_refl)) as [k [v [-> _]]].
     cbn [dict_combine existsb fst] in D. destruct (pval_eqb k PNone || false) eqn:Ek0; [discriminate D|].
     cbn [fold_left pdict_set fst snd] in D. apply orb_false_elim in Ek0 as [Ek0 _].
     assert (K1 : keys_ok (map fst [(k, v)])).
     { split; [intros k0 [<-|[]]; exact Ek0|reflexivity]. }
     destruct (dict_combine_inv ds' _ comb D K1) as [_ Hl].
     destruct comb; [simpl in Hl; lia|discriminate]. }
-  cbn [printable]. rewrite Hkf, Ek, Ev. rewrite (distinct_keys_fst comb), Hd.
+  cbn [printable]. unfold noinf in Hinf. rewrite Hinf, Ek, Ev. rewrite (distinct_keys_fst comb), Hd.
   assert (Hnone : existsb (fun kv => pval_eqb (fst kv) PNone) comb = false).
   { destruct (existsb (fun kv => pval_eqb (fst kv) PNone) comb) eqn:E; [|reflexivity].
     apply existsb_exists in E as [kv [Hin Hkv]]. rewrite (Hn (fst kv)) in Hkv; [discriminate Hkv|]. apply in_map. exact Hin. }
